@@ -72,6 +72,28 @@ func (ctx *typedArraySortCtx) Swap(i, j int) {
 	ctx.ta.typedArray.swap(offset+i, offset+j)
 }
 
+// typedArraySortList sorts a list of element values with a user comparator (no buffer access while user code runs).
+type typedArraySortList struct {
+	vals    []Value
+	compare func(FunctionCall) Value
+}
+
+func (l *typedArraySortList) Len() int { return len(l.vals) }
+
+func (l *typedArraySortList) Swap(i, j int) { l.vals[i], l.vals[j] = l.vals[j], l.vals[i] }
+
+func (l *typedArraySortList) Less(i, j int) bool {
+	res := l.compare(FunctionCall{
+		This:      _undefined,
+		Arguments: []Value{l.vals[i], l.vals[j]},
+	}).ToNumber()
+	if i, ok := res.(valueInt); ok {
+		return i < 0
+	}
+	f := res.ToFloat()
+	return f < 0 || (f == 0 && math.Signbit(f)) // -0 counts as "less", as in typedArraySortCtx.Less
+}
+
 func allocByteSlice(size int) (b []byte) {
 	defer func() {
 		if x := recover(); x != nil {
@@ -1153,9 +1175,25 @@ func (r *Runtime) typedArrayProto_sort(call FunctionCall) Value {
 			compareFn = r.toCallable(arg)
 		}
 
+		if compareFn != nil {
+			// SortIndexedProperties: read all elements, sort the list (user code runs here and may write to or detach
+			// the buffer), then write the sorted list back.
+			vals := make([]Value, ta.length)
+			for i := range vals {
+				vals[i] = ta.typedArray.get(ta.offset + i)
+			}
+			sort.Stable(&typedArraySortList{vals: vals, compare: compareFn})
+			for i, v := range vals {
+				if !ta.isValidIntegerIndex(i) {
+					break
+				}
+				ta.typedArray.set(ta.offset+i, v)
+			}
+			return call.This
+		}
+
 		ctx := typedArraySortCtx{
-			ta:      ta,
-			compare: compareFn,
+			ta: ta,
 		}
 
 		sort.Stable(&ctx)
